@@ -32,6 +32,7 @@ LEVEL_TEXT = ("The tables the library runs with when it is imported with the wor
               "fresh one."
               " If the declared grammar cannot be turned into tables at all (PLY rejects a rule function), that is reported as a violation of the regeneration clause."
               " Cache-state sequences are also replayed inside ONE interpreter (whole workload per step, and exactly one parser per step); one stale state carries tables generated from an older grammar revision."
+              " Wave 7: three more stale states carry table files generated from OTHER revisions of the grammar, chosen from PLY's own signature order: the last alternative of the last rule function missing (cached signature is a prefix of the declared one), one alternative more at the very end (declared signature is a prefix of the cached one), one alternative more in the very first rule function; the workload holds a statement that needs the production the older revision lacks."
               " Wave 5: a subclass that adds one grammar rule is constructed before / after / between plain DDLParser objects in every order of length <=3, in two rounds (its own table file absent, then present): every object must run with the tables of a fresh generation from ITS class's grammar and return its own results.")
 LEVEL_NOTE = ("The sandbox runs as root, so an unwritable package directory cannot be produced with chmod; read-only cache states are not "
               "enumerated. PLY itself (3.11, site-packages) is trusted to generate correct LALR tables from a grammar.")
@@ -39,14 +40,21 @@ RULE = ("case = 'tables' (one exhaustive comparison) or a sequence of cache stat
         "implementation in a new interpreter; non-trivial = sequence containing at least one non-valid state; distinct by sequence")
 ASSUMPTIONS = ["PLY's table construction is deterministic for a given grammar (checked across hash seeds by C14)"]
 
-STATES = ["valid", "tree", "missing", "stale", "oldver", "staleold"]
+STATES = ["valid", "tree", "missing", "stale", "oldver", "staleold", "staletail", "staleplus", "stalehead"]
+# table files of OTHER revisions of the grammar, derived from the working tree by editing one rule docstring; which rule is decided from
+# PLY's own signature order (rule functions sorted by line number), so that the stale signature differs from the declared one only
+# at its very end (staletail: the last alternative of the last rule is missing, i.e. the cached signature is a prefix of the declared
+# one; staleplus: one more alternative at the end, the declared signature is a prefix of the cached one) or only at its very beginning
+# (stalehead: the first rule has one more alternative); staleold (one alternative of t_name less) differs in the middle
+REVISIONS = {"staletail": ("last", "minus"), "staleplus": ("last", "plus"), "stalehead": ("first", "plus")}
 GEN_SCRIPTS = [
     "CREATE TABLE s1.t (a int NOT NULL DEFAULT 0 REFERENCES s.o(x) UNIQUE, b varchar(5), CONSTRAINT u UNIQUE (a, b));\nALTER TABLE s1.t ADD UNIQUE (b);",
     "CREATE EXTERNAL TABLE h (x int, y MAP<STRING, ARRAY<INT>>) PARTITIONED BY (dt string) STORED AS PARQUET LOCATION 's3://a/b';",
     "CREATE SEQUENCE s.q INCREMENT BY 5 START WITH 10 NO MAXVALUE CACHE;\nCREATE TYPE s.m AS ENUM ('a', 'b');\nCREATE DOMAIN s.d AS varchar(3);",
     "CREATE UNIQUE INDEX i ON t (a DESC, b);\nSELECT 1;",
     # uses the production that the "older grammar revision" table file (state staleold) does not have
-    "CREATE TABLE p.s.t3 (a int, b varchar(5));",
+    # ... and the production that the "staletail" table file does not have (last alternative of the last rule function)
+    "CREATE TABLE p.s.t3 (a int, b varchar(5));\nCREATE TABLE h2 (a int) CLUSTERED BY (a) INTO 3 BUCKETS;",
 ]
 OLD_GRAMMAR_EDIT = ("dialects/sql.py", '"""t_name : id DOT id\n        | id\n        | id DOT id DOT id\n', '"""t_name : id DOT id\n        | id\n')
 
@@ -72,12 +80,42 @@ print('RESULT ' + json.dumps(res))
 """
 
 
+# edits ONE rule docstring of the package copy in argv[1]: argv[2] = first | last rule function in PLY's signature order,
+# argv[3] = minus (drop its last alternative) | plus (append one alternative)
+_REVISE = r"""
+import sys, inspect
+sys.path.insert(0, sys.argv[1])
+import logging; logging.disable(logging.CRITICAL)
+from ply import yacc
+from simple_ddl_parser import DDLParser
+o = DDLParser.__new__(DDLParser)
+pi = yacc.ParserReflect({k: getattr(o, k) for k in dir(o)}); pi.get_all()
+funcs = [f for f in pi.pfuncs if f[3]]
+line, mod, name, doc = funcs[0] if sys.argv[2] == 'first' else funcs[-1]
+alts = doc.rstrip().split('\n')
+if sys.argv[3] == 'minus':
+    if len(alts) < 2 or not alts[-1].strip().startswith('|'):
+        print('REVISE none'); sys.exit(0)
+    new = '\n'.join(alts[:-1]) + doc[len(doc.rstrip()):]
+else:
+    rhs = alts[0].split(':', 1)[1].strip()
+    new = doc.rstrip() + '\n        | ' + rhs + ' ' + rhs.split()[-1] + doc[len(doc.rstrip()):]
+path = inspect.getsourcefile(mod)
+txt = open(path).read()
+at = txt.index('def ' + name + '(')
+if txt.count(doc, at) < 1:
+    print('REVISE none'); sys.exit(0)
+open(path, 'w').write(txt[:at] + txt[at:].replace(doc, new, 1))
+print('REVISE ' + name)
+"""
+
 # the same cache-state sequences inside ONE interpreter: between two steps the table file on disk is put into the next state while the
 # process (with whatever it has imported and cached) lives on; every step constructs new parser objects and parses the workload
 _WORK_INPROC = r"""
 import sys, json, hashlib, os, shutil
 root, wfile, good_path, states = sys.argv[1], sys.argv[2], sys.argv[3], json.loads(sys.argv[4])
 old_path, single = sys.argv[5], sys.argv[6] == '1'
+rev = lambda st: os.path.join(os.path.dirname(old_path), st + '_parsetab.py')
 sys.path.insert(0, root)
 import logging; logging.disable(logging.CRITICAL)
 good = open(good_path).read()
@@ -90,6 +128,7 @@ def set_state(st):
     elif st == 'stale': open(path, 'w').write(good.replace("_lr_signature = '", "_lr_signature = 'STALE ", 1))
     elif st == 'oldver': open(path, 'w').write(good.replace("_tabversion = '3.10'", "_tabversion = '3.8'", 1))
     elif st == 'staleold': open(path, 'w').write(open(old_path).read() if os.path.exists(old_path) else good.replace("_lr_signature = '", "_lr_signature = 'STALE ", 1))
+    else: open(path, 'w').write(open(rev(st)).read() if os.path.exists(rev(st)) else good.replace("_lr_signature = '", "_lr_signature = 'STALE ", 1))
 work = json.load(open(wfile))
 if single:
     work = work[-2:-1]  # exactly one parser object per step, on the script that needs the newest production
@@ -106,7 +145,7 @@ for st in states:
     steps.append(out)
 print('RESULT ' + json.dumps({'steps': steps}))
 """
-INPROC_STATES = ["valid", "missing", "stale", "oldver", "staleold"]
+INPROC_STATES = ["valid", "missing", "stale", "oldver", "staleold", "staletail", "staleplus", "stalehead"]
 
 # a parser class that EXTENDS the grammar (the documented extension mechanism: dialect classes are mixed in the same way) used next to
 # the plain class in one interpreter, in every order of constructions: each object runs with the tables of ITS OWN grammar
@@ -256,6 +295,27 @@ def fresh():
             shutil.rmtree(old, ignore_errors=True)
         except Exception:  # noqa
             pass
+        made = {}
+        for st, (which, how) in REVISIONS.items():
+            try:
+                old = tempfile.mkdtemp(prefix="c20r_", dir=sut.root())
+                sut.copy_package(old, sut.root())
+                env = dict(os.environ, PYTHONDONTWRITEBYTECODE="1", PYTHONHASHSEED="0")
+                pr = subprocess.run([sut.PYTHON, "-c", _REVISE, old, which, how], capture_output=True, text=True, env=env, cwd=old)
+                done = [l for l in pr.stdout.splitlines() if l.startswith("REVISE ") and l != "REVISE none"]
+                if done:
+                    os.unlink(os.path.join(old, "simple_ddl_parser", "parsetab.py"))
+                    shutil.rmtree(os.path.join(old, "simple_ddl_parser", "__pycache__"), ignore_errors=True)
+                    json.dump([["CREATE TABLE t (a int);", {}, {}]], open(os.path.join(old, "w.json"), "w"))
+                    r_old, _ = _run_work(old, os.path.join(old, "w.json"))
+                    tabp = os.path.join(old, "simple_ddl_parser", "parsetab.py")
+                    if r_old is not None and os.path.exists(tabp) and _tabs(_load_tab(tabp))["sig"] != res_sig(tmp):
+                        shutil.copyfile(tabp, os.path.join(tmp, st + "_parsetab.py"))
+                        made[st] = done[0][7:]
+                shutil.rmtree(old, ignore_errors=True)
+            except Exception:  # noqa
+                pass
+        res["revisions"] = made
         json.dump(res, open(os.path.join(tmp, "done.json"), "w"))
         try:
             os.rename(tmp, base)
@@ -267,6 +327,10 @@ def fresh():
     _FRESH["work"] = os.path.join(base, "work.json")
     _FRESH["work_small"] = os.path.join(base, "work_small.json")
     return _FRESH
+
+
+def res_sig(tmp):
+    return _tabs(_load_tab(os.path.join(tmp, "simple_ddl_parser", "parsetab.py")))["sig"]
 
 
 def prepare(tier):
@@ -313,6 +377,9 @@ def set_state(pkg, state, F):
         open(path, "w").write(good.replace("_tabversion = '3.10'", "_tabversion = '3.8'", 1))
     elif state == "staleold":
         oldp = os.path.join(F["dir"], "old_parsetab.py")
+        open(path, "w").write(open(oldp).read() if os.path.exists(oldp) else good.replace("_lr_signature = '", "_lr_signature = 'STALE ", 1))
+    elif state in REVISIONS:
+        oldp = os.path.join(F["dir"], state + "_parsetab.py")
         open(path, "w").write(open(oldp).read() if os.path.exists(oldp) else good.replace("_lr_signature = '", "_lr_signature = 'STALE ", 1))
     elif state == "truncated":
         open(path, "w").write(good[: len(good) // 2])
@@ -449,6 +516,7 @@ def extra_coverage(tier, cases, results):
     r0 = results[0]
     return {"lr_states_compared": r0.get("lr_states"), "table_entries_and_productions_compared": r0.get("entries_compared"),
             "shipped_signature_matches_grammar": r0.get("shipped_signature_matches_grammar"),
+            "other_grammar_revisions_used_as_stale_cache": dict(fresh().get("res", {}).get("revisions") or {}, staleold="t_name"),
             "workload_scripts_per_step": {"full": len(workload()), "reduced": len(workload(False))},
             "state_rule": "LR states of the automaton comparison + cache states visited along fault sequences"}
 
